@@ -37,6 +37,31 @@ def decode(fn, args_new_call, template):
         if tup is not None:
             break
     args = [hir.peel(x) for x in tup["elems"]] if tup else []
+    # the placeholders consume the *argument array* in order; its elements name fields of the tuple
+    # (`[Argument::new_display(args.1), Argument::new_display(args.0)]` when captured identifiers and
+    # positional arguments are mixed)
+    try:
+        arr = hir.peel(args_new_call["args"][1]) if len(args_new_call.get("args", [])) > 1 else None
+        for _ in range(3):
+            if arr is None or arr.get("k") == "Array":
+                break
+            l_ = hir.local_of(arr)
+            b_ = fn.bindings().get(l_[0]) if l_ else None
+            arr = hir.peel(b_["origin"][1]) if b_ and b_["origin"][0] == "let" and b_["origin"][1] is not None else None
+        if arr is not None and arr.get("k") == "Array" and tup is not None:
+            order = []
+            for el in arr.get("elems", []):
+                el = hir.peel(el)
+                a0 = hir.peel(hir.call_args(el)[0]) if hir.is_call(el) and hir.call_args(el) else el
+                if a0.get("k") == "Field" and str(a0.get("field", "")).isdigit():
+                    order.append(int(a0["field"]))
+                else:
+                    order = None
+                    break
+            if order is not None and all(i < len(args) for i in order):
+                args = [args[i] for i in order]
+    except (KeyError, IndexError, TypeError):
+        pass
     pieces = []
     i = 0
     ai = 0
@@ -146,12 +171,36 @@ def _builders(fn):
     return out
 
 
-def text_assemblies(prog, fn):
+# helpers whose assembled text was spliced into a caller's (def paths)
+INLINED = set()
+
+
+def text_assemblies(prog, fn, depth=0):
     """[(node, pieces)] for the texts fn puts together: format_args expansions and String builders.  Crate
-    constants that are string literals are folded, adjacent literal pieces merged."""
+    constants that are string literals are folded, calls to crate helpers that return one assembled text are
+    replaced by that text (their parameters by the arguments of the call), adjacent literal pieces merged."""
     raw = formats_in(fn) + _builders(fn)
     out = []
     for node, pieces in raw:
+        # a piece that is the result of a crate helper which itself assembles one text
+        expanded = []
+        for k, v in pieces:
+            v0 = _strip_ref(v) if k == "arg" and isinstance(v, dict) else None
+            h = prog.resolve_local(v0) if v0 is not None and hir.is_call(v0) and v0.get("callee") else None
+            if h is not None and h.body is not None and depth < 3 and h is not fn and any(t in (h.rec.get("ret") or "") for t in ("String", "str", "Cow<")):
+                sub = [(n_, p_) for n_, p_ in text_assemblies(prog, h, depth + 1) if not any((a_.get("macro") or "").startswith("log::") for a_ in h.ancestors(n_))]
+                if len(sub) == 1:
+                    INLINED.add(h.def_path)
+                    for k2, v2 in sub[0][1]:
+                        if k2 == "arg" and isinstance(v2, dict):
+                            l_ = hir.local_of(_strip_ref(v2))
+                            b_ = h.bindings().get(l_[0]) if l_ else None
+                            if b_ and b_["origin"][0] == "param" and not b_["origin"][2] and b_["origin"][1] < len(hir.call_args(v0)):
+                                v2 = hir.call_args(v0)[b_["origin"][1]]
+                        expanded.append((k2, v2))
+                    continue
+            expanded.append((k, v))
+        pieces = expanded
         norm = []
         for k, v in pieces:
             if k == "arg":
